@@ -60,7 +60,7 @@ func (ex *Exec) monitorRelease(st *State, key string, lockArg ssa.Value, pos tok
 				ex.fail("monitor %s rely: %v", mname, err)
 			} else {
 				o := ex.vc.oblige("rely", fmt.Sprintf("rely:%s@unlock%d", ex.conName(), ex.nmon+1), st.guard, t, ex.pos(pos))
-				o.Note = rely + " guaranteed by this critical section of " + mname
+				o.SetNote(rely + " guaranteed by this critical section of " + mname)
 			}
 		}
 	}
@@ -72,7 +72,7 @@ func (ex *Exec) monitorRelease(st *State, key string, lockArg ssa.Value, pos tok
 			return
 		}
 		o := ex.vc.oblige("monitor", fmt.Sprintf("monitor:%s@unlock%d#%s", ex.conName(), ex.nmon, inv), st.guard, t, ex.pos(pos))
-		o.Note = inv + " at release of " + mname
+		o.SetNote(inv + " at release of " + mname)
 	}
 }
 
@@ -83,7 +83,7 @@ func (ex *Exec) monitorAcquire(st *State, key string, lockArg ssa.Value, pos tok
 	}
 	ex.acquireMonitor(st, mname, ref, owner)
 	ex.nacq++
-	if ex.nacq == 1 && ex.curInstr != nil && ex.curInstr.Block().Index == 0 {
+	if ex.nacq == 1 && ex.curInstr != nil && (ex.curInstr.Block().Index == 0 || (ex.con != nil && len(ex.con.Acquires) > 0 && ex.curInstr.Block().Dominates(ex.fn.Blocks[len(ex.fn.Blocks)-1]) || ex.lockDominatesReturns())) {
 		// the function's linearisation point: old() refers to the state seen under the lock
 		keep := ex.entry
 		ex.entry = st.clone()
@@ -278,3 +278,22 @@ func (P *Program) allRecFuncs() map[string]*RecFunc {
 }
 
 var _ = ast.NewIdent
+
+// lockDominatesReturns: the block of the current (first) Lock dominates every return, so it is the linearisation point.
+func (ex *Exec) lockDominatesReturns() bool {
+	if ex.con == nil || len(ex.con.Acquires) == 0 || ex.curInstr == nil {
+		return false
+	}
+	lb := ex.curInstr.Block()
+	for _, b := range ex.fn.Blocks {
+		if len(b.Instrs) == 0 {
+			continue
+		}
+		if _, ok := b.Instrs[len(b.Instrs)-1].(*ssa.Return); ok {
+			if !lb.Dominates(b) {
+				return false
+			}
+		}
+	}
+	return true
+}
